@@ -6,6 +6,7 @@ import (
 	"go/constant"
 	"go/token"
 	"go/types"
+	"golang.org/x/tools/go/ssa"
 	"sort"
 	"strings"
 )
@@ -442,3 +443,139 @@ func ruleJoinModeExhaustive(p *Program, r *Report) {
 		r.Undecided("switch", "switch over CombineOp in positionalRelation.Join not found", 0)
 	}
 }
+
+// R04c: a helper parameterised by a per-element function does not bypass it.  nestWithFunc, Reduce-style and
+// join helpers of package rel are shared by operators that differ only in the function they pass (Nest vs
+// SingleAttrNest: collect tuples vs collect one attribute's values).  A return path that builds its result from the
+// input without involving that function gives every caller the same answer, so it is wrong for at least one of
+// them.  For every function of package rel with a function-typed parameter that it uses, each return value is the
+// input handed back unchanged, a constant, part of an error return, or depends on the parameter.
+func ruleCallbackNotBypassed(p *Program, r *Report) {
+	r.Begin("R04c", "callback completeness: in every function of package rel that takes and uses a function-typed parameter, each returned value is a parameter handed back unchanged, a constant, accompanies a non-nil error, or depends on that parameter — a shortcut path that builds the result from the input alone returns the same thing for callers that pass different functions (Nest / SingleAttrNest)", 10)
+	defer r.End()
+	relPkg := p.Pkg("rel")
+	for _, fn := range p.RepoFns {
+		if fn.Pkg != relPkg || fn.Parent() != nil || strings.HasSuffix(p.File(fn.Pos()), "test_helpers.go") {
+			continue
+		}
+		var fparams []*ssa.Parameter
+		for _, q := range fn.Params {
+			if _, isSig := q.Type().Underlying().(*types.Signature); isSig && q.Referrers() != nil && len(*q.Referrers()) > 0 {
+				fparams = append(fparams, q)
+			}
+		}
+		if len(fparams) == 0 {
+			continue
+		}
+		usesF := func(v ssa.Value) bool {
+			return DependsOn(v, func(x ssa.Value) bool {
+				for _, q := range fparams {
+					if x == ssa.Value(q) {
+						return true
+					}
+				}
+				return false
+			})
+		}
+		isParamBack := func(v ssa.Value) bool {
+			switch x := v.(type) {
+			case *ssa.Parameter:
+				return true
+			case *ssa.UnOp:
+				if al, ok := x.X.(*ssa.Alloc); ok {
+					if _, isP := paramCell(al); isP {
+						return true
+					}
+				}
+			case *ssa.MakeInterface:
+				_, ok := x.X.(*ssa.Parameter)
+				return ok
+			case *ssa.ChangeInterface:
+				_, ok := x.X.(*ssa.Parameter)
+				return ok
+			}
+			return false
+		}
+		// blocks in which the function parameter is used: called, captured by a closure, or handed on
+		useBlocks := map[*ssa.BasicBlock]bool{}
+		isF := func(x ssa.Value) bool {
+			for _, q := range fparams {
+				if x == ssa.Value(q) {
+					return true
+				}
+			}
+			return false
+		}
+		ForEachInstr(fn, func(ins ssa.Instruction) {
+			switch x := ins.(type) {
+			case ssa.CallInstruction:
+				if DependsOn(x.Common().Value, isF) {
+					useBlocks[ins.Block()] = true
+				}
+				for _, a := range x.Common().Args {
+					if DependsOn(a, isF) {
+						useBlocks[ins.Block()] = true
+					}
+				}
+			case *ssa.MakeClosure:
+				for _, b := range x.Bindings {
+					if DependsOn(b, isF) {
+						useBlocks[ins.Block()] = true
+					}
+				}
+			}
+		})
+		afterUse := func(b *ssa.BasicBlock) bool {
+			for u := range useBlocks {
+				if u == b || Reaches(u, b, false) {
+					return true
+				}
+			}
+			return false
+		}
+		ord := 0
+		ForEachInstr(fn, func(ins ssa.Instruction) {
+			ret, ok := ins.(*ssa.Return)
+			if !ok || len(ret.Results) == 0 || ret.Block() == fn.Recover {
+				return
+			}
+			last := len(ret.Results) - 1
+			if isErrorType(ret.Results[last].Type()) && !IsNilConst(RetVal(ret, last)) {
+				return // error return
+			}
+			for i := range ret.Results {
+				rv := RetVal(ret, i)
+				if isErrorType(rv.Type()) {
+					continue
+				}
+				if _, isConst := rv.(*ssa.Const); isConst {
+					continue
+				}
+				if !strings.Contains(rv.Type().String(), Mod+"/rel.") {
+					continue // only results of the value model (Set, Value, Tuple, …) are judged
+				}
+				ord++
+				key := fmt.Sprintf("result@%s~%d", FnName(fn), ord)
+				r.Fn(FnName(fn))
+				switch {
+				case isParamBack(rv):
+					r.OK(key, "an argument handed back unchanged", ret.Pos())
+				case usesF(rv):
+					r.OK(key, "depends on the function parameter", ret.Pos())
+				case afterUse(ret.Block()):
+					r.OK(key, "returned after the function parameter was applied (in-place / control effect)", ret.Pos())
+				default:
+					// a global (None, EmptyScope…) or a value built from nothing is a constant too
+					fromInput := DependsOn(rv, func(x ssa.Value) bool { _, isP := x.(*ssa.Parameter); return isP })
+					if !fromInput {
+						r.OK(key, "a constant result", ret.Pos())
+						continue
+					}
+					r.Viol(key, fmt.Sprintf("%s returns a value built from its input on a path that does not involve its function parameter %s: callers that pass different functions (e.g. Nest and SingleAttrNest through nestWithFunc) get the same result, so at least one of them is wrong", FnName(fn), fparams[0].Name()), ret.Pos())
+				}
+			}
+		})
+	}
+}
+
+func init() { register("C04", Rule{"R04c", ruleCallbackNotBypassed}) }
